@@ -67,7 +67,10 @@ namespace {
   constexpr R K_IT = C03_K_IT;   // x u |s|
   constexpr R K_AN = 128;   // x sqrt(u) |s|
   constexpr R K_NEAR = 256;  // x u |s| / gap, TFEL/Harari eigenvectors at near-degenerate spectra
-  constexpr R K_CUPPEN = 5e5;  // x u, eigenvectors of the divide and conquer solver
+#ifndef C03_K_CUPPEN
+#define C03_K_CUPPEN 5e5
+#endif
+  constexpr R K_CUPPEN = C03_K_CUPPEN;  // x u, eigenvectors of the divide and conquer solver
 
   bool offdiag(const M3& m) {
     return m(0, 1) != 0 || m(0, 2) != 0 || m(1, 2) != 0;
@@ -325,10 +328,12 @@ namespace {
       // known to k u |s|^6; phi = atan2(sqrt(disc), q)/3 with |q| ~ 2 p^1.5,
       // p = 1.5 |dev s|^2, so the eigenvalue error is
       // ~ sqrt(k u) |s| (|s|/|dev s|)^2 / 3, and never more than
-      // 2 |dev s| + sqrt(k u)|s| (all roots are m/3 + O(sqrt p), p itself is
+      // c |dev s| + sqrt(k u)|s| (all roots are m/3 + O(sqrt p), p itself is
       // known to k u |s|^2).
+      // measured (8 seeds): error <= 0.65 sqrt(u)|s|/r^2 and <= 1.3 |dev s|
+      // with r = |dev s|/|s|; both laws get the same factor K_AN (>= 100 x)
       const R r = nA > 0 ? ndA / nA : 0;
-      rel_v = 2 * r + K_AN * su;
+      rel_v = K_AN * r + K_AN * su;
       if (r > 0) rel_v = std::min(rel_v, K_AN * su / (r * r));
       rel_v = std::max(rel_v, K_AN * su);
     } else {
@@ -377,6 +382,12 @@ namespace {
       if (nA > 0)
         c.err("raw_u.eigenvalues." + sol + dim,
               static_cast<double>(std::fabs(vs[k] - rs[k]) / (u * nA)));
+      if (kopp && ndA > 0) {
+        const R r = ndA / nA;
+        c.err("raw_kopp.r2_over_sqrtu." + sol,
+              static_cast<double>(std::fabs(vs[k] - rs[k]) * r * r / (su * nA)));
+        c.err("raw_kopp.over_dev." + sol, static_cast<double>(std::fabs(vs[k] - rs[k]) / ndA));
+      }
     }
     if (N == 2) {
       // documented: "In 2D, the last eigenvalue always corresponds to the
